@@ -20,8 +20,13 @@ extern const Plan* g_plan;
 // hangs are always armed and reported under the running profile.
 inline bool armed(const char* prop) { return g_profile == prop || g_profile == "ALL"; }
 
-// Called by an op immediately before the real API call(s) it makes.
+// Called by an op immediately before the real API call(s) it makes, and right
+// after them.  Between the two, exhausting the step's tick budget is a hang
+// (unless api_site() says the algorithm is legitimately exponential); outside,
+// the harness's own (oracle) computations run and exhausting the budget only
+// makes the run inconclusive.
 void api_begin();
+void api_end();
 
 // exception classes an op may declare as expected
 struct Skip {};                    // step not applicable in the current state (counted as no-op)
